@@ -37,14 +37,14 @@ def log(*a):
     print("[check]", *a, file=sys.stderr, flush=True)
 
 
-def sh(cmd, cwd=None, timeout=3600, inp=None, big_stack=False):
+def sh(cmd, cwd=None, timeout=3600, inp=None, big_stack=False, env=None):
     def pre():
         if big_stack:
             try:
                 resource.setrlimit(resource.RLIMIT_STACK, (resource.RLIM_INFINITY, resource.RLIM_INFINITY))
             except (ValueError, OSError):
                 pass
-    p = subprocess.run(cmd, cwd=cwd, env=ENV, input=inp, stdout=subprocess.PIPE, stderr=subprocess.PIPE,
+    p = subprocess.run(cmd, cwd=cwd, env=env or ENV, input=inp, stdout=subprocess.PIPE, stderr=subprocess.PIPE,
                        timeout=timeout, preexec_fn=pre, text=True)
     return p.returncode, p.stdout, p.stderr
 
@@ -87,7 +87,10 @@ def build_lean():
     """returns dict(ok, broken=[{file,line,decl,msg}], axioms={thm:[..]}, forbidden=[..], wall)"""
     t0 = time.time()
     res = dict(ok=True, broken=[], axioms={}, forbidden=[], translate="ok")
-    rc, out, err = sh([sys.executable, os.path.join(VERIF, "tools", "translate.py"), "--repo", REPO], timeout=120)
+    rc, out, err = sh([sys.executable, os.path.join(VERIF, "tools", "translate.py"), "--repo", REPO,
+                       "--out", os.path.join(LEAN, "PFV", "Generated.lean")], timeout=120)
+    # refusals of the translator's syntactic C14 section concern C14 only (reported there, not here)
+    res["heap_refused"] = [l.split("C14-REFUSED:", 1)[1].strip() for l in (err or "").split("\n") if "C14-REFUSED:" in l]
     if rc != 0:
         res["ok"] = False
         res["translate"] = (err or out).strip()
@@ -140,11 +143,21 @@ def build_lean():
 
 
 def build_harness():
+    """builds /verif/harness against REPO's working tree into BUILD/harness-target (wherever this copy of /verif
+    lives); with VERIF_REPO pointing elsewhere the crate is built from a copy whose path dependency is rewritten"""
     t0 = time.time()
-    lock = os.path.join(HARNESS_DIR, "Cargo.lock")
+    src = HARNESS_DIR
+    if os.path.realpath(REPO) != "/repo":
+        src = os.path.join(BUILD, "harness-src")
+        shutil.rmtree(src, ignore_errors=True)
+        shutil.copytree(HARNESS_DIR, src, ignore=shutil.ignore_patterns("target", "Cargo.lock"))
+        ct = os.path.join(src, "Cargo.toml")
+        open(ct, "w").write(open(ct).read().replace('path = "/repo"', 'path = "%s"' % os.path.realpath(REPO)))
+    lock = os.path.join(src, "Cargo.lock")
     if not os.path.exists(lock):
         shutil.copy(os.path.join(REPO, "Cargo.lock"), lock)
-    rc, out, err = sh(["cargo", "build", "--release", "--offline"], cwd=HARNESS_DIR, timeout=3000)
+    env = dict(ENV, CARGO_TARGET_DIR=os.path.join(BUILD, "harness-target"))
+    rc, out, err = sh(["cargo", "build", "--release", "--offline"], cwd=src, timeout=3000, env=env)
     return dict(ok=rc == 0, msg=(err or out)[-1500:] if rc != 0 else "", wall=time.time() - t0)
 
 
@@ -1268,6 +1281,11 @@ def check_c14(prop, tier, seed):
         lean = build_lean()
         har = build_harness()
     obligations(cov, lean, ["C14"])
+    cov["obligations"] += 1            # the translator's syntactic site check (push/reset/Drop/borrow_mut sites)
+    if lean.get("heap_refused"):
+        cx.corr.append(dict(stream="translator", count=len(lean["heap_refused"]), first="; ".join(lean["heap_refused"])[:800]))
+    else:
+        cov["discharged"] += 1
     if not har["ok"]:
         p = write_replay(prop, "correspondence", dict(stream="harness-build", detail=har["msg"][-800:]))
         return finish(prop, tier, seed, t0, cov, [(p, " no-failing-input-found")], known_lines, notes)
